@@ -18,7 +18,7 @@ mod c20;
 mod denote;
 mod universe;
 
-use vcore::report::Report;
+use vcore::report::run_guarded;
 
 #[global_allocator]
 static GLOBAL: alloc::Counting = alloc::Counting;
@@ -32,76 +32,20 @@ fn main() {
         std::process::exit(probe::child_main());
     }
     let code = match which {
-        "c01" => {
-            let rep = Report::new("C01", "exploration");
-            let cov = c01::run(&rep);
-            rep.finish(cov)
-        }
-        "c03" => {
-            let rep = Report::new("C03", "exploration");
-            let cov = c03::run(&rep);
-            rep.finish(cov)
-        }
-        "c10" => {
-            let rep = Report::new("C10", "exploration");
-            let cov = c10::run(&rep);
-            rep.finish(cov)
-        }
-        "c13" => {
-            let rep = Report::new("C13", "exploration");
-            let cov = c13::run(&rep);
-            rep.finish(cov)
-        }
-        "c11" => {
-            let rep = Report::new("C11", "exploration");
-            let cov = c11::run_c11(&rep);
-            rep.finish(cov)
-        }
-        "c12" => {
-            let rep = Report::new("C12", "exploration");
-            let cov = c11::run_c12(&rep);
-            rep.finish(cov)
-        }
-        "c08" => {
-            let rep = Report::new("C08", "exploration");
-            let cov = c08::run(&rep);
-            rep.finish(cov)
-        }
-        "c09" => {
-            let rep = Report::new("C09", "model_checking");
-            let cov = c09::run(&rep);
-            rep.finish(cov)
-        }
-        "c14" => {
-            let rep = Report::new("C14", "model_checking");
-            let cov = c14::run(&rep);
-            rep.finish(cov)
-        }
-        "c02" => {
-            let rep = Report::new("C02", "exploration");
-            let cov = c02::run(&rep);
-            rep.finish(cov)
-        }
-        "c04" => {
-            let rep = Report::new("C04", "model_checking");
-            let cov = c04::run(&rep);
-            rep.finish(cov)
-        }
-        "c05" => {
-            let rep = Report::new("C05", "model_checking");
-            let cov = c05::run(&rep);
-            rep.finish(cov)
-        }
-        "c20" => {
-            let rep = Report::new("C20", "exploration");
-            let cov = c20::run(&rep);
-            rep.finish(cov)
-        }
-        "c16" => {
-            let rep = Report::new("C16", "model_checking");
-            let cov = c16::run(&rep);
-            rep.finish(cov)
-        }
+        "c01" => run_guarded("C01", "exploration", |rep| c01::run(rep)),
+        "c03" => run_guarded("C03", "exploration", |rep| c03::run(rep)),
+        "c10" => run_guarded("C10", "exploration", |rep| c10::run(rep)),
+        "c13" => run_guarded("C13", "exploration", |rep| c13::run(rep)),
+        "c11" => run_guarded("C11", "exploration", |rep| c11::run_c11(rep)),
+        "c12" => run_guarded("C12", "exploration", |rep| c11::run_c12(rep)),
+        "c08" => run_guarded("C08", "exploration", |rep| c08::run(rep)),
+        "c09" => run_guarded("C09", "model_checking", |rep| c09::run(rep)),
+        "c14" => run_guarded("C14", "model_checking", |rep| c14::run(rep)),
+        "c02" => run_guarded("C02", "exploration", |rep| c02::run(rep)),
+        "c04" => run_guarded("C04", "model_checking", |rep| c04::run(rep)),
+        "c05" => run_guarded("C05", "model_checking", |rep| c05::run(rep)),
+        "c20" => run_guarded("C20", "exploration", |rep| c20::run(rep)),
+        "c16" => run_guarded("C16", "model_checking", |rep| c16::run(rep)),
         _ => {
             eprintln!("usage: etfmc <c01|...>");
             2
